@@ -50,6 +50,9 @@ TAINTS_KW = [
     ('walrus', '({K} := dict(OTHER_K))', 'definite'),
     ('del', 'del {K}', 'definite'),
     ('nonlocal', 'def _nl():\n    nonlocal {K}\n    {K} = dict(OTHER_K)', 'definite'),
+    ('nonlocal-chain', 'def _nl2():\n    nonlocal {K}\n    def _nl3():\n        nonlocal {K}\n        {K} = dict(OTHER_K)', 'definite'),
+    ('nonlocal-deep', 'def _nl4():\n    def _nl5():\n        nonlocal {K}\n        {K} = dict(OTHER_K)', 'definite'),
+    ('nonlocal-in-class-method', 'class _NL6:\n    def m(self):\n        nonlocal {K}\n        {K} = dict(OTHER_K)', 'definite'),
     ('tuple-unpack', '{K}, _u = dict(OTHER_K), 1', 'definite'),
     ('read-len', 'len({K})', 'ambiguous'),
     ('read-item', '{K}.get("zq9")', 'ambiguous'),
@@ -72,6 +75,8 @@ TAINTS_VA = [
     ('walrus', '({A} := tuple(OTHER_A))', 'definite'),
     ('del', 'del {A}', 'definite'),
     ('nonlocal', 'def _nl():\n    nonlocal {A}\n    {A} = tuple(OTHER_A)', 'definite'),
+    ('nonlocal-chain', 'def _nl2():\n    nonlocal {A}\n    def _nl3():\n        nonlocal {A}\n        {A} = tuple(OTHER_A)', 'definite'),
+    ('nonlocal-deep', 'def _nl4():\n    def _nl5():\n        nonlocal {A}\n        {A} = tuple(OTHER_A)', 'definite'),
     ('tuple-unpack', '{A}, _u = tuple(OTHER_A), 1', 'definite'),
     ('method-call', '{A}.count(1)', 'ambiguous'),
     ('handed-on', 'sink({A})', 'ambiguous'),
@@ -153,13 +158,15 @@ def gen_program(case_seed, force=None):
     calls = []
     for ci in range(ncalls):
         pi = rnd.choice(inners)
+        if 'taints' not in force and rnd.random() < 0.15:
+            pi = sigs.pick_stratified(rnd, ('w', 'x', 'y', 'z'), 4, sigs.STARS2[:1])
         if future:
             pi = tuple((n_, k_, d_, ('AlsoMissing%d' % rnd.randint(1, 2) if rnd.random() < 0.6 else a_)) for n_, k_, d_, a_ in pi)
         if rnd.random() < 0.05:
             pi = tuple((('a' if k == 0 and p[1] not in (VA, VK) else p[0]),) + p[1:] for k, p in enumerate(pi))
         ipos = [p[0] for p in pi if p[1] in (PO, PK)]
         ivp, ivk = sigs.has_kind(pi, VA), sigs.has_kind(pi, VK)
-        n = rnd.randint(0, min(2, len(ipos) + (1 if ivp else 0)))
+        n = rnd.randint(0, min(3 if len(pi) > 3 else 2, len(ipos) + (1 if ivp else 0)))
         consumed = set(ipos[:n])
         cand = [p[0] for p in pi if p[1] in (PK, KO) and p[0] not in consumed] + (['zq'] if ivk else [])
         names = tuple(rnd.sample(cand, rnd.randint(0, min(2, len(cand)))))
@@ -455,6 +462,8 @@ def assemble(route, po, calls, body, decorate=False, modifier=None):
         src += 'callee_objs = [%s]\n' % ', '.join('K.callee%d' % i for i in range(n))
     elif route == 'param_partial':
         fo = 'func' + (', ' + ostr if ostr else '')
+        # (a module global named like the parameter, bound to an unrelated function: the parameter wins)
+        src += 'def func(zz1, zz2, zz3, zz4): return None\n'
         src += defs + 'def outer(%s):\n%s\ntarget = functools.partial(outer, callee0)\nraw_outer = outer\n' % (fo, ind(body))
         src += 'callee_objs = [callee0]\n'
     elif route == 'default_param':
@@ -464,6 +473,7 @@ def assemble(route, po, calls, body, decorate=False, modifier=None):
         at = next((k for k, p in enumerate(lst) if p[1] == VK), len(lst))
         lst.insert(at, ('func', KO, 'callee0', None))
         fo = sigs.render(tuple(lst))
+        src += 'def func(zz1, zz2, zz3, zz4): return None\n'
         src += defs + 'class C(object):\n    label = 1\n    def outer(self, %s):\n%s\nobj = C()\ntarget = obj.outer\nraw_outer = C.outer\n' % (fo, ind(body, 2))
         src += 'callee_objs = [callee0]\n'
     elif route == 'wraps':
